@@ -121,7 +121,7 @@ ANYWHERE = sorted(faults(__import__("random").Random(0)).keys())
 STATEFUL = ["dir:sealed-twice", "dir:extent-after-sealed", "dir:extent-none", "dir:extent-bool", "dir:extent-fraction", "dir:union-late", "dir:union-twice",
             "dir:deprecated-late", "dir:deprecated-twice", "dir:deprecated-response", "attr:after-extent", "marker:twice", "commit:union-offset",
             "final:no-mode", "final:union-arity", "syntax"]
-SYNTAX = ["uint8", "uint8 a b", "@", "= 5", "uint8 a = ", "@print 'abc", " uint8 x", "uint8 a; uint8 b", "uint8[ a", "@assert (1", "---x", "void", "@print 1 2"]
+SYNTAX = ["uint8", "uint8 a b", "@", "= 5", "uint8 a = ", "@print abc def", " uint8 x", "uint8 a; uint8 b", "uint8[ a", "@assert (1", "---x", "void", "@print 1 2"]
 
 
 # ----------------------------------------------------------------------------------------------------------------
@@ -310,7 +310,7 @@ def build_file(rng, fid, rel, target, refs, fault, uid, tier, referenced=False, 
 def gen_case(rng, tier, category=None, depth=None, where=None):
     depth = rng.choice([0, 0, 1, 1, 2, 3]) if depth is None else depth
     if category is None:
-        category = rng.choice(["print"] * 6 + ANYWHERE + STATEFUL + ["syntax"] * 3)
+        category = rng.choice(["print"] * 14 + ANYWHERE + STATEFUL + ["syntax"] * 3)
     where = rng.randrange(0, depth + 1) if where is None else where        # which file of the chain holds the fault
     # names: the main target is ns/M; dependencies sort before (A..), after (Z.. / sub/..) or live in the lookup-only root lk
     files = []
